@@ -106,6 +106,107 @@ def _locked_database(ctx, out, rng):
             shutil.rmtree(d, ignore_errors=True)
 
 
+def _statement_faults(ctx, out, rng):
+    """the k-th SQL statement a mutation sends fails (an I/O error, a lost connection, a lock taken by somebody else
+    between two statements), for every k: the mutation raises and nobody else sees any part of it - neither at once nor
+    after a later operation of the same writer has committed"""
+    import sqlite3
+    from sqlalchemy import event
+    from vakt.policy import Policy
+    d = tempfile.mkdtemp(prefix='vakt-c15-stmt-')
+    try:
+        n = 0
+        for op in ('add', 'update', 'delete'):
+            total = None
+            k = 0
+            while total is None or k < total:
+                k += 1
+                n += 1
+                path = os.path.join(d, 'db%d.sqlite' % n)
+                w = open_storage(path)
+                keys = {}
+
+                def pid_of(p):
+                    return keys.setdefault(polcase.policy_key(p), len(keys))
+                old = Policy('u', actions=['get', 'del'], subjects=['s', 't'], resources=['r'], effect='allow', description='old')
+                new = Policy('u', actions=['put', 'get'], subjects=['s2', '<a|b>'], resources=['r2', 'r3'], effect='deny',
+                             description='new')
+                fresh = Policy('n', actions=['a', 'b'], subjects=['c'], resources=['d', 'e'], description='n')
+                later = Policy('z', actions=['x'], subjects=['y'], resources=['w'], description='later')
+                w.add(old)
+                arg = {'add': fresh, 'update': new, 'delete': 'u'}[op]
+                before = read_all(path, pid_of)
+                count = [0]
+                armed = [True]
+
+                def on_exec(conn, cursor, statement, parameters, context, executemany, count=count, armed=armed, k=k):
+                    if not armed[0]:
+                        return
+                    count[0] += 1
+                    if count[0] == k:
+                        raise sqlite3.OperationalError('disk I/O error (injected at statement %d)' % k)
+                event.listen(w._engine, 'before_cursor_execute', on_exec)
+                try:
+                    getattr(w, op)(arg)
+                    outcome = 'returned'
+                except Exception as e:
+                    outcome = 'raised %s' % type(e).__name__
+                armed[0] = False
+                if total is None:
+                    # the statements of an undisturbed run: measured once per operation on a throw-away database
+                    w0 = open_storage(os.path.join(d, 'dry-%s.sqlite' % op))
+                    w0.add(old)
+                    c0 = [0]
+                    event.listen(w0._engine, 'before_cursor_execute', lambda *a, c0=c0: c0.__setitem__(0, c0[0] + 1))
+                    getattr(w0, op)(arg)
+                    total = c0[0]
+                    w0.session.remove()
+                    w0._engine.dispose()
+                after = read_all(path, pid_of)
+                want = sorted('%s:%d' % (proto.enc_str(p.uid), pid_of(p)) for p in
+                              {'add': [old, fresh], 'update': [new], 'delete': []}[op])
+                out.evaluations += 1
+                out.count('statement-fault:%s:%s' % (op, outcome.split(' ')[0]))
+                desc = {'scenario': 'statement %d of about %d sent by %s() fails' % (k, total, op), 'outcome': outcome,
+                        'seen_before': before, 'seen_after': after}
+                prob = None
+                if outcome == 'returned' and after != want:
+                    prob = '%s() returned normally but another session does not see its effect' % op
+                elif outcome != 'returned' and after != before:
+                    prob = '%s() raised, yet another session sees a part of it' % op
+                if prob is None and outcome != 'returned':
+                    # a later operation of the same writer: whatever it commits, it is not a remainder of the failed one
+                    later_out = 'returned'
+                    for attempt in range(2):
+                        try:
+                            w.add(later)
+                            later_out = 'returned'
+                            break
+                        except Exception as e:
+                            later_out = 'raised %s' % type(e).__name__
+                            try:
+                                w.session.rollback()        # what an application does with a session that reports an error
+                            except Exception:
+                                pass
+                    after2 = read_all(path, pid_of)
+                    ok2 = [before, sorted(before + ['%s:%d' % (proto.enc_str('z'), pid_of(later))])]
+                    desc['later_add'] = later_out
+                    desc['seen_after_later_add'] = after2
+                    if after2 not in ok2:
+                        prob = 'a later add() of another policy made a part of the failed %s() visible' % op
+                if prob:
+                    f = Failure('oracle', desc, outcome, None, prob, 'Vakt.C15.crash_anywhere / op_committed_and_clean')
+                    f.signature = 'statement-fault:' + op
+                    out.failures.append(f)
+                    w.session.remove()
+                    w._engine.dispose()
+                    break
+                w.session.remove()
+                w._engine.dispose()
+    finally:
+        shutil.rmtree(d, ignore_errors=True)
+
+
 def _finalizer_placement(ctx, out, rng):
     """an abandoned, half-consumed listing (get_all / find_for_inquiry / retrieve_all) is finalised by the garbage
     collector at an arbitrary later moment - possibly in the middle of a mutation.  The moment is enumerated: the listing
@@ -386,6 +487,7 @@ def run(ctx):
             out.samples.append({'history': desc['history'][:10], 'outcomes': outs[:8], 'fresh_session_sees': states[:4]})
     _locked_database(ctx, out, rng)
     _finalizer_placement(ctx, out, rng)
+    _statement_faults(ctx, out, rng)
     out.rule = ('histories of 3-%d add / update / delete on a file-backed SQLite database through one long-lived writer '
                 'session (duplicate adds, updates of absent uids, updates that fail half-way on a malformed later field, '
                 'reads on the writer session in between); after EVERY operation a fresh engine + session reads the whole '
